@@ -355,8 +355,9 @@ def same_result(a, b, depth=0):
     if isinstance(a, dict) and isinstance(b, dict):
         return sorted(a, key=str) == sorted(b, key=str) and all(same_result(a[k], b[k], depth + 1) for k in a)
     if hasattr(a, "__dict__") and type(a).__module__.startswith("polliwog") and type(a) is type(b):
-        return same_result({k: v for k, v in vars(a).items() if not k.startswith("__")},
-                           {k: v for k, v in vars(b).items() if not k.startswith("__")}, depth + 1)
+        # public state only: a lazily filled private cache on one of two equal objects is not a difference
+        return same_result({k: v for k, v in vars(a).items() if not k.startswith("_")},
+                           {k: v for k, v in vars(b).items() if not k.startswith("_")}, depth + 1)
     if isinstance(a, float) and isinstance(b, float) and a != a and b != b:
         return True
     try:
@@ -817,7 +818,11 @@ def make_stack(spec):
         tol = 1e-9 * scale * scale
         mixed = spec["stream"] == "float-mixed"
         # the same stack in column-major memory order is the same stack
-        if k >= 2 and not mixed and not st.get("single"):     # (the line / plane twins decide `parallel` by an exact zero: not
+        decision = any(w in e.name for w in ("sign", "points_in_front", "points_on_or_in_front", "contains", "is_point_on",
+                                             "same_side", "index_of", "nearest", "extent", "apex"))
+        # (step functions of a rounded quantity -- a sign, a mask, an argmax, which segment is nearest -- are not comparable
+        # across summation orders for inputs within rounding error of the step; same exclusion as `sign_undetermined`)
+        if k >= 2 and not mixed and not st.get("single") and not decision:     # (the line / plane twins decide `parallel` by an exact zero: not
             try:                                                 # comparable across summation orders, see xsection_undetermined)
                 fort = as_list(e.call({a: (np.asfortranarray(v) if isinstance(v, np.ndarray) and v.ndim >= 2 else
                                            (v.copy() if isinstance(v, np.ndarray) else v)) for a, v in A.items()}, make_self(sk)))
